@@ -32,28 +32,23 @@ theorem Sim.disconnect {c c' : Conn Msg} (h : Sim c c') : Sim (disconnect c) (di
 theorem Sim_parseLoop (cfg : Cfg Msg) (c : Conn Msg) :
     ∀ c', Sim c c' → c.state = .connected → Sim (parseLoop cfg c) (parseLoop cfg c') := by
   refine parseLoop_induct cfg
-    (fun c r => ∀ c', Sim c c' → c.state = .connected → Sim r (parseLoop cfg c')) ?_ ?_ ?_ ?_ ?_ c
+    (fun c r => ∀ c', Sim c c' → c.state = .connected → Sim r (parseLoop cfg c')) ?_ ?_ ?_ ?_ c
   · intro c hp c' h hc
     have hr := h.rbuf (by rw [hc]; decide)
     rw [parseLoop_wait cfg c' (by rw [← hr]; exact hp)]; exact h
   · intro c hp c' h hc
     have hr := h.rbuf (by rw [hc]; decide)
     rw [parseLoop_bad cfg c' (by rw [← hr]; exact hp)]; exact h.disconnect
-  · intro c m rest hp hn c' h hc
+  · intro c m rest hp hcb c' h hc
     have hr := h.rbuf (by rw [hc]; decide)
     rw [parseLoop_msg cfg c' m rest (by rw [← hr]; exact hp)]
-    simp only [hn, if_true]
-    exact ⟨h.state, h.delivered, h.nDisc, h.lastRead, fun _ => rfl⟩
-  · intro c m rest hp hn hcb c' h hc
-    have hr := h.rbuf (by rw [hc]; decide)
-    rw [parseLoop_msg cfg c' m rest (by rw [← hr]; exact hp)]
-    simp only [hn, hcb, Bool.false_eq_true, if_false, if_true]
+    simp only [hcb, if_true]
     apply Sim.disconnect
     exact ⟨h.state, by simp [h.delivered], h.nDisc, h.lastRead, fun _ => rfl⟩
-  · intro c m rest hp hn hcb ih c' h hc
+  · intro c m rest hp hcb ih c' h hc
     have hr := h.rbuf (by rw [hc]; decide)
     rw [parseLoop_msg cfg c' m rest (by rw [← hr]; exact hp)]
-    simp only [hn, hcb, Bool.false_eq_true, if_false]
+    simp only [hcb, Bool.false_eq_true, if_false]
     exact ih _ ⟨h.state, by simp [h.delivered], h.nDisc, h.lastRead, fun _ => rfl⟩ hc
 
 theorem Sim_recvLoop (r : List RecvRes) : ∀ (c c' : Conn Msg), Sim c c' → c.state = .connected →
@@ -121,7 +116,10 @@ theorem trySend_benign (cfg : Cfg Msg) (c : Conn Msg) (now : Nat) (s : List Send
   simp only [ht', if_false]
   split
   · exact Sim.refl c
-  · exact sendLoop_benign s c hb
+  · have h1 := sendLoop_benign s c hb
+    split
+    · exact ⟨h1.state, h1.delivered, h1.nDisc, h1.lastRead, h1.rbuf⟩
+    · exact h1
 
 theorem writePart_benign (cfg : Cfg Msg) (c : Conn Msg) (now : Nat) (s : List SendRes)
     (ht : now ≤ c.lastRead + cfg.timeout) (hb : ∀ r ∈ s, BenignSend r) : Sim (writePart cfg c now s) c := by
